@@ -5,6 +5,7 @@
 -/
 import Masscanned.Model.Basic
 import Masscanned.Model.Http
+import Masscanned.Gen.Texts
 namespace Masscanned
 
 inductive RpcPhase where
@@ -147,7 +148,7 @@ def rpcPortmap (s : RpcSt) (ip : Ip) (port : Nat) : Except Site Bytes :=
       if s.progVersion = 2 then .ok ([0, 0, 0, 1] ++ u32be 100000 ++ u32be v ++ u32be 6 ++ u32be port)
       else if s.progVersion = 3 ∨ s.progVersion = 4 then
         .ok ([0, 0, 0, 1] ++ u32be 100000 ++ u32be v ++ xdrString netid ++ xdrString (uaddr ip port)
-             ++ xdrString "superuser".toUTF8.toList)
+             ++ xdrString Gen.rpcOwner)
       else .error .rpcVersion
     match entry 2, entry 3, entry 4 with
     | .ok a, .ok b, .ok c => .ok ([0, 0, 0, 0] ++ a ++ b ++ c ++ [0, 0, 0, 0])
